@@ -516,6 +516,12 @@ func class(err error) string {
 	if c, ok := classOf[err]; ok {
 		return c
 	}
+	// a sentinel wrapped with %w (or joined) is still that sentinel
+	for sentinel, c := range classOf {
+		if errors.Is(err, sentinel) {
+			return c
+		}
+	}
 	return "x"
 }
 
@@ -558,6 +564,8 @@ type session struct {
 	sessNo    int
 	// hashes of the blocks the node produced itself
 	own map[string]bool
+	// the session cannot go on (the node is in a state the harness' block producer cannot follow)
+	broken bool
 }
 
 // cidAt: the chain-id hash a transaction must carry to execute in a block of height h: the hash of the chain id with
@@ -987,7 +995,7 @@ func (s *session) admitClass(tx *types.Tx, err error) string {
 	if err == nil {
 		return "ok"
 	}
-	if c, ok := classOf[err]; ok {
+	if c := class(err); c != "x" {
 		return c
 	}
 	if verr := s.n.mp.VerifC04VerifyTx(types.NewTransaction(tx)); verr != nil {
@@ -1601,6 +1609,9 @@ func (s *session) genNameMove() {
 		if pb := s.opProduce("former-owner-tx-pooled"); pb != nil {
 			b2 = pb
 		}
+		if s.broken {
+			return
+		}
 	}
 	s.opBlock(b2, []*mtx{T}, true, "former-owner-tx-pool-hit")
 	if s.rng.Chance(1, 2) {
@@ -2032,7 +2043,11 @@ func (s *session) opProduce(shape string) *mblk {
 	}
 	// any other node receiving this block must be able to execute it to the same state
 	if !s.p.adopt(parent.blk, blk) {
+		// nothing can be built on this block: the session ends here
+		s.op(line, out, true)
 		s.fail("the node committed an own block that another node cannot execute to the state root its header claims")
+		s.broken = true
+		return nil
 	}
 	s.op(line, out, true)
 	s.run.Count("produce:" + shape + "=" + out)
@@ -2114,6 +2129,7 @@ func (s *session) runSession(nops int) {
 	s.loaded = map[string]bool{}
 	s.contracts = map[string]bool{}
 	s.own = map[string]bool{}
+	s.broken = false
 	s.sessNo++
 	_, accept := s.n.mp.VerifC04ChainIdHashes()
 	if !bytes.Equal(accept, s.cidAt(1)) {
@@ -2135,7 +2151,7 @@ func (s *session) runSession(nops int) {
 	if s.sessNo%s.run.Pick(40, 100) == 3 {
 		s.genLoad()
 	}
-	for i := 0; i < nops; i++ {
+	for i := 0; i < nops && !s.broken; i++ {
 		k := s.rng.Intn(100)
 		switch {
 		case k < 27:
